@@ -19,7 +19,7 @@ from __future__ import annotations
 import ast
 from typing import Dict, List, Optional, Set, Tuple
 
-from ..core import AnalysisError, Module, Repo, call_attr, call_name, calls_in, norm, parent, qualname, short
+from ..core import AnalysisError, Module, Repo, call_attr, call_name, calls_in, get_kw, norm, parent, qualname, short
 from ..report import Ctx
 
 _DICT_CTORS = {"dict", "OrderedDict", "collections.OrderedDict", "defaultdict", "collections.defaultdict"}
@@ -95,6 +95,7 @@ def _class_state_fields(repo: Repo) -> Dict[str, Dict[str, Set[str]]]:
 
 
 def rule_memo_sound(ctx: Ctx, rels: List[str]) -> None:
+    rels = _widen(ctx, rels)
     repo = ctx.repo
     found = 0
     scanned = 0
@@ -303,6 +304,30 @@ def rule_memo_sound(ctx: Ctx, rels: List[str]) -> None:
                                       f"{scanned} functions scanned")
 
 
+_ANCHOR_FILES: Dict[str, List[str]] = {}
+
+
+def _widen(ctx: Ctx, rels: List[str]) -> List[str]:
+    """The generic rules look at the modules a property module names plus every file the property's own anchors list."""
+    import json
+    import os
+    if not _ANCHOR_FILES:
+        here = os.path.dirname(os.path.dirname(os.path.dirname(os.path.abspath(__file__))))
+        try:
+            with open(os.path.join(here, "properties.jsonl"), encoding="utf-8") as fh:
+                for line in fh:
+                    if line.strip():
+                        d = json.loads(line)
+                        _ANCHOR_FILES[d["id"]] = list(d.get("anchors", {}).get("files", []))
+        except OSError:
+            pass
+    out = list(rels)
+    for f in _ANCHOR_FILES.get(getattr(ctx, "prop", ""), []):
+        if f not in out and f in ctx.repo.by_rel:
+            out.append(f)
+    return out
+
+
 # --------------------------------------------------------------------------- falsy.zero
 
 
@@ -310,6 +335,7 @@ def rule_falsy_zero(ctx: Ctx, rels: List[str]) -> None:
     """falsy.zero: `p or default` / `if not p:` on a parameter that is used as a number (an index, position, seed, count: it is
     compared, added, used as a subscript or handed to range/randint) treats the legitimate value 0 as "not given": position 0, seed 0
     and outcome 0 silently become the default.  (`p is None` is the test that means "not given".)"""
+    rels = _widen(ctx, rels)
     repo = ctx.repo
     scanned = hits = 0
     for rel in rels:
@@ -387,6 +413,7 @@ def rule_arg_names(ctx: Ctx, rels: List[str]) -> None:
     """arg.names-swapped: at a call of one of graphiq's own functions, two positional arguments that are plain names, each spelled
     exactly like one of the callee's parameters, are passed in each other's position (f(target, control) for def f(control, target)).
     Resolved by unique function name across the package; zero instances on today's tree."""
+    rels = _widen(ctx, rels)
     repo = ctx.repo
     defs: Dict[str, List[Tuple[Module, ast.FunctionDef]]] = {}
     for m in repo.modules.values():
@@ -424,3 +451,156 @@ def rule_arg_names(ctx: Ctx, rels: List[str]) -> None:
         raise AnalysisError("arg.names-swapped: no resolvable call site")
     if hits == 0:
         ctx.ok_abstract("arg.names-swapped", f"{sites} resolved call sites, no pair of same-named arguments in each other's position")
+
+
+# --------------------------------------------------------------------------- num.fixed-width
+
+
+def _np_int_array(e: ast.AST, defs) -> bool:
+    """an expression that is a numpy integer array whose length is not a small literal (np.arange(n), np.arange(n)[::-1], a local bound to one)"""
+    for _ in range(3):
+        if isinstance(e, ast.Name) and e.id in defs:
+            e = defs[e.id]
+    if isinstance(e, ast.Subscript):
+        return _np_int_array(e.value, defs)
+    if isinstance(e, ast.Call):
+        cn = call_name(e) or ""
+        if cn in ("np.arange", "numpy.arange"):
+            if get_kw(e, "dtype") is not None and norm(get_kw(e, "dtype")) in ("object", "np.object_"):
+                return False
+            top = e.args[1] if len(e.args) > 1 else (e.args[0] if e.args else None)
+            if isinstance(top, ast.Constant) and isinstance(top.value, int) and top.value <= 62:
+                return False
+            return True
+        if call_attr(e) in ("astype", "copy", "flatten", "ravel", "reshape") and isinstance(e.func, ast.Attribute):
+            if call_attr(e) == "astype" and e.args and norm(e.args[0]) in ("object", "np.object_"):
+                return False
+            return _np_int_array(e.func.value, defs)
+    return False
+
+
+def rule_fixed_width(ctx: Ctx, rels: List[str]) -> None:
+    """num.fixed-width: `1 << np.arange(n)` / `2 ** np.arange(n)` / np.left_shift / np.power(2, ..) build powers of two in numpy's 64-bit
+    integers; for n >= 64 (graph and register sizes are unbounded here) the entries wrap around silently, unlike Python integers.  Packing a
+    row of bits into one machine integer is exact only below that width."""
+    rels = _widen(ctx, rels)
+    repo = ctx.repo
+    scanned = hits = 0
+    for rel in rels:
+        m = repo.module(rel)
+        for fn in [f for f in ast.walk(m.tree) if isinstance(f, (ast.FunctionDef, ast.AsyncFunctionDef))]:
+            scanned += 1
+            defs = {}
+            for a in ast.walk(fn):
+                if isinstance(a, ast.Assign) and len(a.targets) == 1 and isinstance(a.targets[0], ast.Name):
+                    defs[a.targets[0].id] = a.value
+            guarded = any(isinstance(t, (ast.Assert, ast.If)) and any(isinstance(c, ast.Constant) and c.value in (62, 63, 64) for c in ast.walk(t.test))
+                          for t in ast.walk(fn) if isinstance(t, (ast.Assert, ast.If)))
+            for x in ast.walk(fn):
+                site = None
+                if isinstance(x, ast.BinOp) and isinstance(x.op, ast.LShift) and _np_int_array(x.right, defs):
+                    site = x
+                elif isinstance(x, ast.BinOp) and isinstance(x.op, ast.Pow) and isinstance(x.left, ast.Constant) and isinstance(x.left.value, int) \
+                        and x.left.value >= 2 and _np_int_array(x.right, defs):
+                    site = x
+                elif isinstance(x, ast.Call) and (call_name(x) or "") in ("np.left_shift", "np.power", "np.exp2") and x.args and _np_int_array(x.args[-1], defs):
+                    site = x
+                if site is None:
+                    continue
+                hits += 1
+                ctx.touch(m, fn)
+                if guarded:
+                    ctx.ok("num.fixed-width", m, site, what="width guarded by an explicit bound")
+                else:
+                    ctx.fail("num.fixed-width", m, site,
+                             f"`{short(site)}` builds powers of two in 64-bit numpy integers with no bound on the exponent: from 64 entries on they wrap "
+                             f"around silently (negative / zero weights), so whatever is packed with them is wrong for large inputs only",
+                             func=qualname(fn), construct=f"{qualname(fn)}: {short(site, 60)}")
+    ctx.ok_abstract("num.fixed-width", f"{scanned} functions scanned, {hits} fixed-width power-of-two constructions")
+
+
+# --------------------------------------------------------------------------- paste.incomplete
+
+
+def _leaves(n: ast.AST):
+    shape, out = [], []
+    for x in ast.walk(n):
+        shape.append(type(x).__name__)
+        if isinstance(x, ast.Name):
+            out.append(("n", x.id, x))
+        elif isinstance(x, ast.Attribute):
+            out.append(("a", x.attr, x))
+        elif isinstance(x, ast.Constant):
+            out.append(("c", repr(x.value), x))
+        elif isinstance(x, ast.keyword):
+            out.append(("k", x.arg or "", x))
+    return shape, out
+
+
+def _core(a: str, b: str):
+    """minimal differing core of two strings: (u, v) with a = p+u+s, b = p+v+s"""
+    i = 0
+    while i < min(len(a), len(b)) and a[i] == b[i]:
+        i += 1
+    j = 0
+    while j < min(len(a), len(b)) - i and a[len(a) - 1 - j] == b[len(b) - 1 - j]:
+        j += 1
+    return a[i:len(a) - j], b[i:len(b) - j]
+
+
+def rule_paste_incomplete(ctx: Ctx, rels: List[str]) -> None:
+    """paste.incomplete: two adjacent statements of identical shape that differ by one systematic renaming (control -> target, 1 -> 2,
+    x -> z, ...) applied at two or more places, where one further occurrence of a renamed identifier was left as it was: the second
+    statement still reads the first one's variable (the classic copy-and-adapt slip).  Only identifiers that are renamed elsewhere in the
+    same pair count; a pair that simply shares an input is not reported."""
+    rels = _widen(ctx, rels)
+    repo = ctx.repo
+    pairs = hits = 0
+    for rel in rels:
+        m = repo.module(rel)
+        for node in ast.walk(m.tree):
+            for field in ("body", "orelse", "finalbody"):
+                blk = getattr(node, field, None)
+                if not isinstance(blk, list):
+                    continue
+                for s1, s2 in zip(blk, blk[1:]):
+                    if not isinstance(s1, (ast.Assign, ast.AugAssign, ast.Expr)) or type(s1) is not type(s2):
+                        continue
+                    sh1, l1 = _leaves(s1)
+                    sh2, l2 = _leaves(s2)
+                    if sh1 != sh2 or len(l1) != len(l2):
+                        continue
+                    diffs = [(a, b) for a, b in zip(l1, l2) if (a[0], a[1]) != (b[0], b[1])]
+                    if len(diffs) < 2:
+                        continue
+                    pairs += 1
+                    cores = {}
+                    for a, b in diffs:
+                        u, v = _core(a[1].strip("'\""), b[1].strip("'\""))
+                        if u and v:
+                            cores.setdefault((u, v), []).append((a, b))
+                    for (u, v), ds in cores.items():
+                        if len(ds) < 2:
+                            continue
+                        renamed = {a[1] for a, _ in ds if a[0] in "na"}
+                        # an identifier that is renamed at one place and kept at another
+                        for a, b in zip(l1, l2):
+                            if a[0] in "na" and a[1] in renamed and b[1] == a[1] and u in a[1]:
+                                fn = next((x for x in _anc_fn(s2)), None)
+                                hits += 1
+                                ctx.touch(m, fn)
+                                ctx.fail("paste.incomplete", m, b[2],
+                                         f"`{short(s2, 110)}` mirrors the statement before it with `{u}` -> `{v}` at {len(ds)} places, but still reads "
+                                         f"`{a[1]}` where the pattern calls for `{a[1].replace(u, v)}`",
+                                         func=qualname(fn) if fn is not None else "<module>",
+                                         construct=f"{qualname(fn) if fn is not None else '<module>'}: `{a[1]}` left unrenamed in `{short(s2, 70)}`")
+                                break
+    ctx.ok_abstract("paste.incomplete", f"{pairs} adjacent same-shape statement pairs compared, {hits} with an identifier left unrenamed")
+
+
+def _anc_fn(n):
+    p = parent(n)
+    while p is not None:
+        if isinstance(p, (ast.FunctionDef, ast.AsyncFunctionDef)):
+            yield p
+        p = parent(p)
